@@ -20,6 +20,7 @@ def main():
     demo_dst = os.path.join(wt, crate, "tests", name + ".rs")
     sh("git checkout -- . && git clean -fdq -e target", wt)
     res = {}
+    os.makedirs(os.path.dirname(demo_dst), exist_ok=True)
     shutil.copy(os.path.join(out, "demo.rs"), demo_dst)
     rc, o = sh("cargo test --offline -p %s --test %s" % (crate, name), wt)
     res["demo_without_patch_passes"] = (rc == 0)
